@@ -20,7 +20,7 @@ structure RState where
 
 def initR (hdr : List String) : RState :=
   let cap := (hdr.filterMap (fun h => if h.startsWith "cap=" then (h.drop 4).toNat? else none)).head?.getD 1
-  { c := { cap := cap }, s := State.init }
+  { c := { cap := cap, sizeCheck := exitChecksSize }, s := State.init }
 
 def showPc (p : Pc) : String := reprStr p
 
@@ -73,7 +73,7 @@ def stepObs (r : RState) (o : Obs) : Except String RState :=
   | some (.rmw op "pushidx" off mo old v) => lock r t .none (.rmw op "pushidx" off mo old v)
   | some (.ld "popidx" _ _ v) =>
     match pc with
-    | .cPop _ _ _ => if v = r.s.head then .ok r else .error s!"pop index read {v}, model head is {r.s.head}"
+    | .cPop _ _ _ | .cSize _ _ => if v = r.s.head then .ok r else .error s!"pop index read {v}, model head is {r.s.head}"
     | _ => .error s!"pop index read while the model thread is at {showPc pc}"
   | some (.st "popidx" off mo v) =>
     match pc with
